@@ -59,24 +59,22 @@ let show_binding ?(nulled=false) live values ((k, n), d) =
   | KImport, Some v when values -> Printf.sprintf "%s%d=%s/%s" kc n tag v
   | _ -> Printf.sprintf "%s%d=%s" kc n tag
 
-(* for a Load that the model rejects with repeated_decl: is the definition it clashes with an
-   exported MIR FUNCTION (the case the property text names) or something else (external, resolver
-   address, data, proto)?  "*" marks the latter. *)
-let clash_mark st o =
+(* for a Load that the model rejects with repeated_decl: does the module export a function whose name
+   was exported as a MIR FUNCTION by an earlier successful load (the case the property text names and
+   theorem second_function_export_rejected states: ANY earlier function export in the log [pubs] of the
+   trace counts, also when an external address, a resolver answer, data or a proto of that name was
+   registered in between and is what the table of globals holds now), or does it clash only with
+   such other definitions?  "*" marks the latter.  [log] is [pubs] of the trace so far. *)
+let clash_mark st log o =
   match o with
   | Load ds ->
     (match build ds with
      | Inl m ->
-       let ex = exported st.nloads m in
-       let rec go = function
-         | [] -> ""
-         | (n, DMod (_, _, KFunc)) :: rest ->
-           (match assoc st.env n with
-            | Some (DMod (_, _, KFunc)) -> ""
-            | Some _ -> "*"
-            | None -> go rest)
-         | _ :: rest -> go rest in
-       go ex
+       let fs = List.filter_map (function (n, DMod (_, _, KFunc)) -> Some n | _ -> None) (exported st.nloads m) in
+       let func_before n = List.exists (function (n', DMod (_, _, KFunc)) -> n' = n | _ -> false) log in
+       if List.exists func_before fs then ""
+       else if List.exists (fun n -> assoc st.env n <> None) fs then "*"
+       else ""
      | Inr _ -> "")
   | _ -> ""
 
@@ -90,12 +88,15 @@ let run_history line =
   let b = Buffer.create 256 in
   let st = ref init in
   let nulled = ref [] in   (* modules that went through a NULL-interface link *)
+  let log = ref [] in      (* pubs of the trace so far: every definition made visible, oldest first *)
   let first = ref true in
   (try
      List.iter (fun (o, quiet) ->
          let before = !st in
          let (s', out) = step (not pinned) !st o in
          st := s';
+         let log_before = !log in
+         log := !log @ pubs_of_step before.nloads o out;
          (match out with
           | OSkipped -> raise Exit
           | _ -> ());
@@ -105,7 +106,7 @@ let run_history line =
          match out with
          | OOk -> Buffer.add_string b "ok"
          | OErr ERepeatedDecl ->
-           Buffer.add_string b ("E:repeated_decl" ^ clash_mark before o);
+           Buffer.add_string b ("E:repeated_decl" ^ clash_mark before log_before o);
            if stop_at_rejection && not s'.dead then raise Exit
          | OErr e -> Buffer.add_string b ("E:" ^ err_name e)
          | OLinkFailed res -> Buffer.add_string b ("E:undeclared_op_ref " ^ show_res res)
